@@ -147,9 +147,14 @@ func (w *world) do(c *http.Cookie) (*url.URL, *http.Cookie, int) {
 		req.Header.Add("Cookie", "theme=dark; lang=en")
 	}
 	if c != nil {
-		if w.otherCookies == 2 {
+		switch w.otherCookies {
+		case 2:
 			req.Header.Add("Cookie", c.Name+"="+c.Value)
-		} else {
+		case 3: // neighbours that strict cookie parsers reject: a flag without '=', a trailing ';'
+			req.Header.Set("Cookie", "seen; "+c.Name+"="+c.Value+";")
+		case 4: // a neighbour with a quoted value containing a blank, another with a blank before '='
+			req.Header.Set("Cookie", `pref="a b"; lang =en; `+c.Name+"="+c.Value)
+		default:
 			req.AddCookie(c)
 		}
 	}
@@ -175,7 +180,10 @@ func (w *world) do(c *http.Cookie) (*url.URL, *http.Cookie, int) {
 		if w.cookieOpt.Path != "" {
 			wantPath = w.cookieOpt.Path
 		}
-		if issued.Path != wantPath || issued.Domain != w.cookieOpt.Domain || issued.MaxAge != w.cookieOpt.MaxAge || issued.Secure != w.cookieOpt.Secure || issued.HttpOnly != w.cookieOpt.HTTPOnly || issued.SameSite != w.cookieOpt.SameSite {
+		// (a Domain that is no valid domain name - underscore, port - is left out of the cookie by
+		// net/http; the cookie itself is issued all the same)
+		oddDomain := strings.ContainsAny(w.cookieOpt.Domain, "_:")
+		if issued.Path != wantPath || (!oddDomain && issued.Domain != w.cookieOpt.Domain) || issued.MaxAge != w.cookieOpt.MaxAge || issued.Secure != w.cookieOpt.Secure || issued.HttpOnly != w.cookieOpt.HTTPOnly || issued.SameSite != w.cookieOpt.SameSite {
 			w.fail("affinity cookie issued as %q, configured attributes are %+v", issued.String(), w.cookieOpt)
 		}
 	}
@@ -271,7 +279,7 @@ func TestC11_Sessions(t *testing.T) {
 		var now time.Duration
 		w := &world{t: t, members: map[string]*url.URL{}, direct: map[string]bool{}}
 		w.cd = genCodec(t, 2, "c")
-		w.otherCookies = rapid.IntRange(0, 2).Draw(t, "otherCookies")
+		w.otherCookies = rapid.IntRange(0, 4).Draw(t, "otherCookies")
 		appCookie := rapid.Bool().Draw(t, "backendSetsCookies")
 		mutatingBackend := rapid.IntRange(0, 2).Draw(t, "handlerRewritesURL") == 0
 		var handler http.Handler = http.HandlerFunc(func(rw http.ResponseWriter, r *http.Request) {
@@ -302,7 +310,7 @@ func TestC11_Sessions(t *testing.T) {
 		opt := roundrobin.CookieOptions{}
 		if withOptions {
 			opt = roundrobin.CookieOptions{HTTPOnly: rapid.Bool().Draw(t, "httpOnly"), Secure: rapid.Bool().Draw(t, "secure"),
-				Path: rapid.SampledFrom([]string{"", "/", "/app"}).Draw(t, "cookiePath"), Domain: rapid.SampledFrom([]string{"", "example.com"}).Draw(t, "cookieDomain"),
+				Path: rapid.SampledFrom([]string{"", "/", "/app"}).Draw(t, "cookiePath"), Domain: rapid.SampledFrom([]string{"", "example.com", "example.com", "my_app.example.com", "example.com:8443"}).Draw(t, "cookieDomain"),
 				MaxAge: rapid.SampledFrom([]int{0, 3600}).Draw(t, "maxAge"), SameSite: rapid.SampledFrom([]http.SameSite{0, http.SameSiteLaxMode, http.SameSiteStrictMode}).Draw(t, "sameSite")}
 			ss = roundrobin.NewStickySessionWithOptions("sid", opt)
 		}
